@@ -21,7 +21,7 @@ OfInstance(M, n, s) == {k \in Idx(M) : M[k].node = n /\ M[k].sid = s}
 Healthy(M, n, s, acc, strict, tagged) ==
     LET all  == OfInstance(M, n, s)
         mine == {k \in all : M[k].kind \in ServiceKinds} IN
-    /\ s \in tagged
+    /\ <<n, s>> \in tagged        \* tagged: the set of instances <<node, service id>> that advertise a routing tag
     /\ mine # {}
     /\ \E k \in all : M[k].st \in acc
     /\ strict => \A k \in all : M[k].st \in acc
